@@ -5,7 +5,7 @@ from typing import Dict, List, Optional
 
 from .. import terms as tm
 from ..interp import Event, Interp, Result
-from ..lib import comparisons, fmt, fuse_elems, is_call_to, per_element
+from ..lib import opaque, comparisons, fmt, fuse_elems, is_call_to, per_element
 from ..progdb import AnalysisError
 from ..terms import T, const
 from . import metrics_model as mm
@@ -234,7 +234,7 @@ def check(ctx):
                f"APE[{member}]: the per-pose value is not derived from the "
                f"reference/estimate pose of the same index of the unsliced "
                f"sequences: {fmt(arg)}", key=f"C01.2:{member}:pairing",
-               arg=fmt(arg))
+               arg=fmt(arg), evidence=not opaque(arg))
         # ---------------------------------------------------------- C01.3
         fam = red["family"]
         if family in ("norm", "pointdist"):
@@ -265,7 +265,10 @@ def check(ctx):
         ctx.ob("C01.3", prog.func(f"{APE}.__init__"), u is want_u,
                f"APE[{member}]: unit is {unit_ape}" if u is want_u else
                f"APE[{member}]: unit is {fmt(u)}, the reduction yields "
-               f"{unit_ape}", key=f"C01.3:{member}:unit")
+               f"{unit_ape}", key=f"C01.3:{member}:unit",
+               # (a unit that is not resolved to a member of Unit — a call, a
+               # lookup that does not fold — is not evidence)
+               evidence=u is not None and u.op == "enum")
         ctx.ob("C01.3", res.func, True, f"APE[{member}]: E stored",
                key=f"C01.3:{member}:dispatch", nontrivial=False)
 
